@@ -177,10 +177,12 @@ def view_rows(ctx, data):
     return rsl, csl, key[:-2]
 
 
-def t_single(ctx):
+def t_single(ctx, force_compressed=False):
     """one call: validation, range, header shift, data selection"""
     ctx.float_rounding = float_rounding
     s = symbols(ctx)
+    if force_compressed:
+        ctx.assume(s['compressed'])
     n, i, rows = s['n'], s['i'], s['rows']
     out, hdr, xh = one_call(ctx, "", s, (i, n))
     invalid = Or(n <= 0, i >= n, i < 0)
